@@ -223,6 +223,24 @@ func (c *Ctx) callFacts(call *ssa.Call, o lin.Form) {
 		}
 	case "encoding/hex.EncodedLen":
 		c.add(lin.EQ(o, c.Lin(call.Common().Args[0]).ScaleI(2))...)
+	case "encoding/hex.DecodedLen":
+		// n/2 for n >= 0
+		n := c.Lin(call.Common().Args[0])
+		c.add(lin.LE(o.ScaleI(2), n), lin.GE(o.ScaleI(2), n.AddK(-1)))
+	case "encoding/base64.(*Encoding).DecodedLen", "(*encoding/base64.Encoding).DecodedLen":
+		n := c.Lin(call.Common().Args[len(call.Common().Args)-1])
+		c.add(lin.GE0(o), lin.LE(o, n))
+	case "unicode/utf16.RuneLen":
+		// -1 for an invalid rune, else 1 or 2; a rune produced by ranging over a string is
+		// always a valid scalar value (invalid bytes yield U+FFFD)
+		lo := int64(-1)
+		if ex, ok := call.Common().Args[0].(*ssa.Extract); ok {
+			if _, isNext := ex.Tuple.(*ssa.Next); isNext && ex.Index == 2 {
+				lo = 1
+			}
+		}
+		c.add(lin.GE(o, lin.K(lo)), lin.LE(o, lin.K(2)))
+	case "unicode/utf8.RuneLen2":
 	// documented ranges of the calendar accessors of time.Time
 	case "(time.Time).Nanosecond":
 		c.add(lin.GE0(o), lin.LE(o, lin.K(999999999)))
